@@ -40,6 +40,18 @@ def set_padding(m, meta):
                 "state_half_applied": half, "expected": "padding resolved to (80, 22) and applied from the next frame"}
     f = next(it)
     ok = tuple(f.render_size) == (80, 22)
+    if ok:
+        # the padded size has to follow the size the ITERATION renders at (set_render_size), not the renderable's own
+        from term_image.padding import ExactPadding
+        it2 = RenderIterator(_renderable(3))
+        next(it2)
+        it2.set_render_size(Size(3, 2))
+        it2.set_padding(ExactPadding(1, 1, 1, 1))
+        f2 = next(it2)
+        if tuple(f2.render_size) != (5, 4) or len(f2.render_output.split("\n")) != 4:
+            return {"reproduced": True, "input": "next; set_render_size((3, 2)); set_padding(ExactPadding(1, 1, 1, 1)); next",
+                    "observed": {"render_size": tuple(f2.render_size), "lines": len(f2.render_output.split("\n"))}, "expected": (5, 4)}
+        return histories(m, meta, n_hist=1500)
     return {"reproduced": not ok, "input": "set_padding(AlignedPadding(0, -2)) on an 80x24 terminal", "observed": tuple(f.render_size), "expected": (80, 22)}
 
 
@@ -103,7 +115,7 @@ def histories(m, meta, n_hist=3000, seed=7):
                         tr.append(("stop",))
                         continue
                 ps = pad.get_padded_size(size)
-                tr.append(("frame", nxt, dur if dur is not FrameDuration.DYNAMIC else 77, tuple(ps), x, loop))
+                tr.append(("frame", nxt, dur if dur is not FrameDuration.DYNAMIC else 77, tuple(ps), int(str(x)[0]), loop))   # the digit the render shows
                 nxt += 1
                 continue
             if k == "close":
@@ -188,7 +200,7 @@ def histories(m, meta, n_hist=3000, seed=7):
             elif c < 0.7: ops.append(("seek", rng.randint(-N - 1, N + 1), rng.choice(list(Seek))))
             elif c < 0.78: ops.append(("size", Size(rng.randint(2, 4), rng.randint(1, 3))))
             elif c < 0.84: ops.append(("dur", rng.choice([5, 20, FrameDuration.DYNAMIC, 0, -3])))
-            elif c < 0.9: ops.append(("args", rng.randint(0, 3)))
+            elif c < 0.9: ops.append(("args", rng.choice([0, 1, 2, 3, 2 ** 61])))      # hash(2**61) == hash(1): equal hashes, different arguments
             elif c < 0.96: ops.append(("pad", rng.choice([ExactPadding(1, 0, 2, 1), AlignedPadding(6, 4), AlignedPadding(1, 1), ExactPadding(), AlignedPadding(0, -2)])))
             else: ops.append(("close",))
         return ops
